@@ -45,7 +45,7 @@ def build(pid, race=False):
     """(Re)build the test binary of a property from /repo's current working tree."""
     ensure_mod()
     os.makedirs(BUILD, exist_ok=True)
-    outp = os.path.join(BUILD, pid.lower() + (".race" if race else "") + ".test")
+    outp = os.path.join(BUILD, "%s%s.%d.test" % (pid.lower(), ".race" if race else "", os.getpid()))
     cmd = ["go", "test", "-c", "-vet=off", "-tags", TAG, "-o", outp]
     if race:
         cmd.append("-race")
@@ -145,11 +145,14 @@ def main():
         ok = True
         for pid in all_props():
             cfg = load_cfg(pid)
-            if build(pid) is None:
-                ok = False
+            outs = [build(pid)]
             if any(t.get("race") for t in cfg["tests"]):
-                if build(pid, race=True) is None:
+                outs.append(build(pid, race=True))
+            for o in outs:
+                if o is None:
                     ok = False
+                else:
+                    os.remove(o)  # only the Go build cache is wanted; every check rebuilds anyway
         sys.exit(0 if ok else 2)
     pid = a.pid.upper()
     cfg = load_cfg(pid)
@@ -174,7 +177,7 @@ def main():
 
     replay_dir = os.path.join(VERIF, "replays", pid)
     os.makedirs(replay_dir, exist_ok=True)
-    runroot = os.path.join(BUILD, "run", pid + "-" + tier + ("-replay" if replay else ""))
+    runroot = os.path.join(BUILD, "run", "%s-%s%s-%d" % (pid, tier, "-replay" if replay else "", os.getpid()))
     shutil.rmtree(runroot, ignore_errors=True)
     os.makedirs(runroot)
     known_path = os.path.join(VERIF, "KNOWN_FINDINGS.json")
@@ -247,6 +250,9 @@ def main():
                 st = json.load(open(sp))
             except Exception:
                 st = None
+        if st is None and c == "ok":
+            c = t["class"] = "inconclusive"
+            t["note"] = "statistics file missing"
         if st:
             for pn, p in st["parts"].items():
                 agg = parts.setdefault(pn, dict(evaluations=0, nontrivial=0, labels={}, sigs=set(), samples=[], exhaustive=True, shards=0))
@@ -359,6 +365,11 @@ def main():
             json.dump(ev, f, indent=1, sort_keys=False, default=str)
     if not a.keep:
         shutil.rmtree(runroot, ignore_errors=True)
+    for b in bins.values():
+        try:
+            os.remove(b)
+        except Exception:
+            pass
 
     if status == "violation":
         seen = set()
